@@ -1,0 +1,12 @@
+//go:build verif
+
+package authkeys
+
+import "hop.computer/hop/keys"
+
+// VerifHas reports whether pk is in the set (verification harness only).
+func (s *SyncAuthKeySet) VerifHas(pk keys.DHPublicKey) bool {
+	s.lock.Lock()
+	defer s.lock.Unlock()
+	return s.keySet[pk]
+}
